@@ -631,6 +631,48 @@ impl Scenario for Hostile {
                             }
                         }
                     }
+                    if !small && r.chance(1, 10) {
+                        // a central extra field that fills its 16-bit length almost completely (no room left for another
+                        // record when the directory is re-emitted after new_append), ending in a ZIP64 record - or one of
+                        // the records real archivers write - whose claimed length may overrun the field; escapes in the
+                        // 32-bit fields so that the ZIP64 values are asked for
+                        let mut rx = Rng::derive(r.next_u64(), "near-limit-extra");
+                        let k = rx.usize_below(l.entries.len());
+                        let e = &mut l.entries[k];
+                        e.z64_central = rx.below(8) as u8;
+                        e.z64_first = rx.chance(1, 2);
+                        let mut tail: Vec<u8> = match rx.below(3) {
+                            0 => {
+                                // the FIRST ZIP64 record a reader meets (the builder's own follows it): as many values
+                                // as the escapes ask for, or too few, beyond 4 GiB, under an honest or an overrunning
+                                // length
+                                e.z64_central |= 1 << rx.below(3);
+                                e.z64_first = false;
+                                let n = (e.z64_central & 7).count_ones() as usize;
+                                let have = rx.pickc(&[8 * n, 8 * n, 8 * n + 4, 8 * n - 8, 0]);
+                                let claim = rx.pickc(&[have as u16, 0xffff, have as u16 + 64, 0xfff0]);
+                                let mut t = vec![1u8, 0];
+                                t.extend_from_slice(&claim.to_le_bytes());
+                                for i in 0..have {
+                                    t.push(if i % 8 == 4 { 1 + rx.below(3) as u8 } else { rx.below(256) as u8 });
+                                }
+                                t
+                            }
+                            1 => real_world_records(&mut rx, &e.name.0, &e.comment.0, true),
+                            _ => vec![],
+                        };
+                        tail.truncate(200);
+                        let z = 4 + 8 * (e.z64_central & 7).count_ones() as usize;
+                        let room = 65535usize.saturating_sub(if e.z64_central & 7 != 0 { z } else { 0 }).saturating_sub(tail.len()).saturating_sub(rx.below(30) as usize);
+                        if room > 8 {
+                            let n = room - 4;
+                            let mut x = 0xbeefu16.to_le_bytes().to_vec();
+                            x.extend_from_slice(&(n as u16).to_le_bytes());
+                            x.extend_from_slice(&vec![0x5au8; n]);
+                            x.extend_from_slice(&tail);
+                            e.extra_central = Hex(x);
+                        }
+                    }
                     if !small && r.chance(1, 3) {
                         // long names that are not ASCII: the name accessors (mangled / enclosed / raw / decoded)
                         let k = r.usize_below(l.entries.len());
@@ -687,6 +729,9 @@ impl Scenario for Hostile {
                 Plan::Faults(v)
             }
         };
+        // a seed that is hostile by construction (near-limit extra field with a lying tail record) is also run as it is
+        let by_construction = matches!(&seedimg, SeedImg::Src(Source::Built(l)) if l.entries.iter().any(|e| e.extra_central.0.len() > 60_000));
+        let plan = if by_construction && Rng::derive(s, "as-built").chance(2, 3) { Plan::Faults(vec![]) } else { plan };
         let case = HostCase { seed: seedimg, plan, pw: Hex(if r.chance(1, 2) { b"pw".to_vec() } else { r.rbytes(0, 5) }), bufs: gen_bufs(&mut r) };
         serde_json::to_value(case).unwrap_or(Value::Null)
     }
